@@ -256,7 +256,23 @@ def split(m, w, k=0, leader=N1):
     return w
 
 
-SEEDS = dict(voted=voted, ahead=ahead, lagging_newleader=lagging_newleader, m_deposed=m_deposed, split=split, version_snap=version_snap, fresh=fresh, steady=steady, lagging=lagging, lagging_snap=lagging_snap, deposed=deposed,
+def battery_lagsnap(m, w, ops=(0, 1), leader=N1, lag=None, do_compact=True):
+    """`lag` is cut off, battery operations `ops` are committed by the others, the leader compacts:
+    `lag` will receive the batteries through a snapshot."""
+    lag = lag or addr(m.cfg.n)
+    w = steady(m, w, 0, leader)
+    w = m.isolate(w, lag)
+    rest = [n for n, _ in w.nodes if n != lag]
+    for oi in ops:
+        w = m.do(w, ('BO', leader, oi, 'free'), ('Z', leader))
+        w = m.drain(w, only=rest)
+        w = beat(m, w, leader, only=rest, times=3)
+    if do_compact:
+        w = compact(m, w, leader)
+    return w
+
+
+SEEDS = dict(voted=voted, battery_lagsnap=battery_lagsnap, ahead=ahead, lagging_newleader=lagging_newleader, m_deposed=m_deposed, split=split, version_snap=version_snap, fresh=fresh, steady=steady, lagging=lagging, lagging_snap=lagging_snap, deposed=deposed,
              deposed_snap=deposed_snap, deposed_twice=deposed_twice, pending=pending, reconnect_pipeline=reconnect_pipeline,
              forwarded=forwarded, fig8=fig8)
 
